@@ -28,6 +28,12 @@ func NewWith(convert StructOptions, value interface{}) Value {
 		return Null{}
 	}
 
+	// a nil pointer is null, whatever its type (a value-receiver MarshalValue
+	// cannot be called through it).
+	if v := reflect.ValueOf(value); v.Kind() == reflect.Ptr && v.IsNil() {
+		return Null{}
+	}
+
 	// see if value implements MarshalValue
 	if mar, ok := value.(Marshaler); ok {
 		return mar.MarshalValue()
@@ -43,7 +49,11 @@ func NewWith(convert StructOptions, value interface{}) Value {
 	}
 
 	if v.Type() == timeType {
-		return String(v.Interface().(time.Time).Format(convert.TimeFormat))
+		var layout = convert.TimeFormat
+		if layout == "" {
+			layout = time.RFC3339 // "if empty, use ISO-8601"
+		}
+		return String(v.Interface().(time.Time).Format(layout))
 	}
 
 	switch v.Kind() {
